@@ -7,8 +7,10 @@ package main
 // way out answers that.
 
 import (
+	"fmt"
 	"go/token"
 	"go/types"
+	"os"
 	"strings"
 
 	"golang.org/x/tools/go/ssa"
@@ -21,8 +23,52 @@ func flowsToResult(fn *ssa.Function, src ssa.Value) bool {
 	}
 	reached := map[ssa.Value]bool{src: true}
 	roots := map[ssa.Value]bool{}
+	// the object behind a value: a pointer seen through assertions and interface conversions is the same object
+	objBase := func(v ssa.Value) ssa.Value {
+		for i := 0; i < 16; i++ {
+			switch x := v.(type) {
+			case *ssa.TypeAssert:
+				v = x.X
+			case *ssa.MakeInterface:
+				v = x.X
+			case *ssa.ChangeInterface:
+				v = x.X
+			case *ssa.ChangeType:
+				v = x.X
+			case *ssa.Extract:
+				if ta, ok := x.Tuple.(*ssa.TypeAssert); ok {
+					v = ta.X
+				} else {
+					return v
+				}
+			default:
+				return v
+			}
+		}
+		return v
+	}
 	rootOf := func(addr ssa.Value) ssa.Value {
-		rt := valueRoot(addr)
+		rt := objBase(valueRoot(objBase(addr)))
+		// a pointer kept in a variable that a closure captures: the object is the one the variable was given
+		for i := 0; i < 4; i++ {
+			al, ok := rt.(*ssa.Alloc)
+			if !ok {
+				if fv, isFV := rt.(*ssa.FreeVar); isFV {
+					al = cellOfAddr(fv)
+				}
+				if al == nil {
+					break
+				}
+			}
+			if _, holdsPtr := al.Type().(*types.Pointer).Elem().Underlying().(*types.Pointer); !holdsPtr {
+				break
+			}
+			st, esc := cellStores(al)
+			if esc || len(st) != 1 {
+				break
+			}
+			rt = objBase(valueRoot(objBase(st[0].Val)))
+		}
 		if fv, ok := rt.(*ssa.FreeVar); ok {
 			if al := cellOfAddr(fv); al != nil {
 				return al
@@ -66,10 +112,24 @@ func flowsToResult(fn *ssa.Function, src ssa.Value) bool {
 						if reached[*op] {
 							hit = true
 						}
+						// a pointer to (or into) an object that was written into
+						switch (*op).Type().Underlying().(type) {
+						case *types.Pointer, *types.Interface:
+							if len(roots) > 0 && roots[rootOf(*op)] {
+								hit = true
+							}
+						}
 					}
 					switch x := ins.(type) {
 					case *ssa.Store:
-						if reached[x.Val] {
+						carries := reached[x.Val]
+						switch x.Val.Type().Underlying().(type) {
+						case *types.Pointer, *types.Interface:
+							if len(roots) > 0 && roots[rootOf(x.Val)] {
+								carries = true // a pointer to an object that was written into
+							}
+						}
+						if carries {
 							markRoot(rootOf(x.Addr))
 						}
 						continue
@@ -80,6 +140,17 @@ func flowsToResult(fn *ssa.Function, src ssa.Value) bool {
 						}
 						continue
 					case *ssa.Return:
+						if g == fn {
+							for _, res := range x.Results {
+								// the object handed back is one that was written into
+								switch objBase(res).Type().Underlying().(type) {
+								case *types.Pointer, *types.Interface:
+									if roots[rootOf(res)] {
+										hit = true
+									}
+								}
+							}
+						}
 						if hit && g == fn {
 							delivered = true
 						}
@@ -140,6 +211,15 @@ func flowsToResult(fn *ssa.Function, src ssa.Value) bool {
 			}
 		}
 	}
+	if dbg := os.Getenv("FINLINT_DEBUG_FLOW"); dbg != "" && strings.Contains(fn.String(), dbg) {
+		fmt.Fprintf(os.Stderr, "FLOW %s src=%s (%s) delivered=%v\n", fn.Name(), src.Name(), src.String(), delivered)
+		for rt := range roots {
+			fmt.Fprintf(os.Stderr, "   root %s = %s\n", rt.Name(), rt.String())
+		}
+		for v := range reached {
+			fmt.Fprintf(os.Stderr, "   reached %s = %s\n", v.Name(), v.String())
+		}
+	}
 	return delivered
 }
 
@@ -150,6 +230,15 @@ func keywordPresenceFlows(fn *ssa.Function, call ssa.Value, lit string) bool {
 	if lit == "" {
 		return false
 	}
+	return presenceConstFlows(fn, call, func(k *ssa.Const) bool {
+		s, ok := constString(k)
+		return ok && strings.Contains(s, lit)
+	})
+}
+
+// presenceConstFlows: the accessor's result is tested for nil, and on the edge where the part is present a constant accepted by
+// match can reach the function's result.
+func presenceConstFlows(fn *ssa.Function, call ssa.Value, match func(*ssa.Const) bool) bool {
 	for _, bb := range fn.Blocks {
 		cond := branchCond(bb)
 		if cond == nil {
@@ -169,7 +258,7 @@ func keywordPresenceFlows(fn *ssa.Function, call ssa.Value, lit string) bool {
 					if !isConst {
 						continue
 					}
-					if s, ok := constString(k); !ok || !strings.Contains(s, lit) {
+					if !match(k) {
 						continue
 					}
 					under := edgeDominates(bb, nn, b)
